@@ -13,6 +13,8 @@ def genFacts : Facts :=
   { recorded := Generated.tRecorded
     dispatch := Generated.tDispatch
     partIdx := Generated.tPartIdxExprs
+    argExempt := Generated.tArgValExempt
+    argShapeOk := Generated.tArgValShapeOk
     exc := Generated.excTable }
 
 end Glom.C02
